@@ -26,7 +26,7 @@ def extra(tier, rng):
     import coregen
     return [coregen.override_family(rng) for _ in range(150 if tier == "quick" else 3000)] + \
         [coregen.shared_override_family(rng) for _ in range(100 if tier == "quick" else 2000)] + \
-        ctxhist.cases(tier, rng, focus="ov")
+        ctxhist.cases(tier, rng, focus="ov") + cc.corefam4.callctx_cases(tier, cc.fork(rng, "callctx"))
 
 
 def plan(tier, seed):
